@@ -68,7 +68,21 @@ def cases(rng, tier):
             klass = "zero-dur"
         else:
             klass = "gen"
+        if q != "-" and i % 3 == 0:
+            q = q + ",d00000000"
         yield ("traj f %s %s" % (hexs(G.encode(tr)), q), klass)
+        if klass == "gen" and i % 4 == 0 and len(tr["segs"]) >= 2:
+            # every way of asking for the duration, also of a player that has been used: interior queries first
+            bs = G.boundaries(tr)
+            ks = [k for k in range(len(bs) - 1) if bs[k + 1] > bs[k]]
+            rng.shuffle(ks)
+            hq = []
+            for k in ks[:4]:
+                t = G.f32((bs[k] + (bs[k + 1] - bs[k]) * rng.choice([0.25, 0.5, 0.75])) / 1000.0)
+                hq += ["p" + fhex(t), "d00000000"]
+            if not hq:
+                continue
+            yield ("traj h %s %s" % (hexs(G.encode(tr)), ",".join(hq)), "used-player-duration")
 
 
 def _cmp_vec(m, i, tol):
@@ -122,6 +136,12 @@ def compare_traj(case, om, oi, check_offsets=False):
                 return "token kind model=%s impl=%s" % (a, b)
             if pa[1] != pb[1]:
                 return "query result code model=%s impl=%s" % (a[:80], b[:80])
+            if pa[0] == "d":
+                if pa[1] == "0" and pa[2] != pb[2]:
+                    return "player total duration: model=%s impl=%s" % (a, b)
+                if pb[-1] == "X":
+                    return "history-dependent total duration: %s" % b[:100]
+                continue
             if pa[1] == "0":
                 d = _cmp_vec(pa[2], pb[2], parse_q(pa[3]))
                 if d:
